@@ -21,6 +21,7 @@ type DocOpts struct {
 var docSwitches = map[string]bool{
 	"opt.absent": false, "opt.null": false, "arr.empty": false, "dict.empty": false, "bound": false,
 	"zero":      false, // explicit Go zero value ("" / 0 / false) for an optional scalar member when the type admits it
+	"zero.enum": true,  // the same for optional members typed by an enum, a constant or a union of those having 0 / "" / false among the members (on in C01's c01-rows)
 	"int.large": false, "dt.offset": false, "str.unicode": false, "str.empty": false,
 	"any.bigint": true, // integers beyond 2^53 in `any` positions (re-encoded through float64)
 	"any.null":   true, // null inside `any`
@@ -356,6 +357,50 @@ func (g *docGen) zeroScalar(ty *Src) (JV, bool) {
 	case SNum:
 		if (t.FLo == nil || *t.FLo <= 0) && (t.FHi == nil || *t.FHi >= 0) {
 			return jInt(0), true
+		}
+	case SEnumI, SEnumS, SConst, SOneOfScalars:
+		if !g.o.Avoid["zero.enum"] {
+			return g.zeroMember(t, 0)
+		}
+	}
+	return JV{}, false
+}
+
+// zeroMember: the member of an enum / constant / union of those that is a Go zero value (0, "", false).
+func (g *docGen) zeroMember(t *Src, fuel int) (JV, bool) {
+	if t == nil || fuel > 8 {
+		return JV{}, false
+	}
+	switch t.Kind {
+	case SEnumI:
+		for _, v := range t.EnumI {
+			if v == 0 {
+				return jInt(0), true
+			}
+		}
+	case SEnumS:
+		for _, v := range t.EnumS {
+			if v == "" {
+				return jStr(""), true
+			}
+		}
+	case SConst:
+		c := t.Const
+		if (c.K == 'n' && c.S == "0") || (c.K == 's' && c.S == "") || c.K == 'f' {
+			return c.clone(), true
+		}
+	case SRef:
+		return g.zeroMember(g.d.resolve(t), fuel+1)
+	case SOneOfScalars:
+		for _, a := range t.Alts {
+			switch a.Kind {
+			case SEnumI, SEnumS, SConst, SRef:
+				if r := g.d.resolve(a); r != nil && (r.Kind == SEnumI || r.Kind == SEnumS || r.Kind == SConst) {
+					if z, ok := g.zeroMember(r, fuel+1); ok {
+						return z, true
+					}
+				}
+			}
 		}
 	}
 	return JV{}, false
